@@ -459,7 +459,7 @@ func (r *runner) update(oi int, op Op, d *docModel) *hx.Failure {
 	}
 	set := []FieldVal{}
 	for _, fv := range op.Set {
-		if w == holder && contains(d.spec.Deny, fv.F) && d.spec.encrypted(fv.F) {
+		if w == holder && d.spec.denied(fv.F) {
 			continue // node 1 has no key for this field: it cannot extend its history
 		}
 		set = append(set, fv)
@@ -890,7 +890,7 @@ func (r *runner) readback(k int, when string) *hx.Failure {
 			return r.failf("C11/readback/"+role+"/deleted-flag", "n%d (%s): d%d _deleted=%v, model says %v", k, when, di, row["_deleted"], d.deleted)
 		}
 		for _, f := range allFields {
-			denied := k == holder && d.spec.encrypted(f) && contains(d.spec.Deny, f)
+			denied := k == holder && d.spec.denied(f)
 			var want Val
 			switch {
 			case denied:
